@@ -498,6 +498,21 @@ where
                 out.obs1(&name, "S", decision(&d));
                 out.input(&format!("mchal.{}", m), &vs2.challenges(vs2_start));
                 if A::wants_sq_events() { out.input(&format!("msq.{}", m), &vs2.sq_events(vs2_start)); }
+                if kind == "comm_mut" {
+                    // the prover cooperates: a fresh opening against the altered commitments, then the check
+                    let mut ps3 = rec.vsponge_before.clone();
+                    let mut vs3 = rec.vsponge_before.clone();
+                    let mut orng = CountingRng::new(c.u64_1(&format!("open_seed.{}", t)));
+                    let mut vrng3 = CountingRng::new(rec.check_seed);
+                    let r3 = guard_any(|| A::PC::open(&ck, sel.iter().map(|i| &polys[*i]), sel.iter().map(|i| &cms[*i]),
+                        &pts[pj], &mut ps3, sel.iter().map(|i| &states[*i]), Some(&mut orng)));
+                    let dec = match r3.ok() {
+                        Some(pf3) => decision(&guard_any(|| A::PC::check(&vk, sel.iter().map(|i| &cms[*i]), &pts[pj], values.clone(), &pf3, &mut vs3, Some(&mut vrng3)))),
+                        None => "refused".to_string(),
+                    };
+                    let _ = A::take_hash_log();
+                    out.obs1(&format!("{}.reopen", name), "S", dec);
+                }
             }
             "batch" => {
                 let bp = match &rec.bproof { Some(p) => p.clone(), None => { out.obs1(&name, "S", "skipped".into()); continue; } };
